@@ -1,7 +1,7 @@
 """C08 Shared-memory buffer: structural clauses decided with the term dataflow."""
 from plint import symx
 from plint.symx import C, norm, SymFlow, FState, term_mentions, site_of
-from plint.ir import strip_casts, line, show, calls, cv, root_var, walk
+from plint.ir import strip_casts, line, show, calls, cv, root_var, walk, true_edge_guards
 from plint.units import AnalysisBroken
 
 MEMCPY = ("memcpy", "__builtin_memcpy", "__builtin___memcpy_chk", "memmove")
@@ -138,7 +138,7 @@ def run(prog, rep):
     u = prog.unit("pshmbuffer.c")
     ops = {}
     for name in ("p_shm_buffer_read", "p_shm_buffer_write", "p_shm_buffer_get_free_space", "p_shm_buffer_get_used_space", "p_shm_buffer_clear"):
-        fn = u.fn(name)
+        fn = u.fn(name).inlined(skip=HELPERS)
         ops[name] = (fn, analyse(fn, rep))
 
     # ---- C08.1 ---------------------------------------------------------------
@@ -158,7 +158,7 @@ def run(prog, rep):
     # ---- helpers: C08.5 ---------------------------------------------------------
     helper_terms = {}
     for hn in HELPERS:
-        hf = u.fn(hn)
+        hf = u.fn(hn).inlined()
         p0 = hf.param_names()[0]
         size_t = ("m0", ("fld", ("p", p0), "size"))
         R, W = ("hdr", C(0)), None
@@ -487,9 +487,10 @@ def run(prog, rep):
     msg = ""
     if ok4:
         rhs = writers[0][1]["r"]
-        gs = [c for c in calls(rhs) if c.get("callee") == "p_shm_get_size"]
+        org = nw.origins(rhs)
+        gs = [c for c in org if c["k"] == "call" and c.get("callee") == "p_shm_get_size"]
         params = set(nw.param_names())
-        direct = [n for n in walk(rhs) if n["k"] == "ref" and n.get("decl") == "param" and n["name"] in params]
+        direct = [n for n in org if n["k"] == "ref" and n.get("decl") == "param" and n["name"] in params]
         ok4 = len(gs) == 1 and not direct
         msg = "buf->size = %s" % show(rhs)
     rep.ob("C08.4", nw, "modulus:source", ok4, "the ring modulus derives only from the size the shm layer reports (%s)" % msg if ok4 else
@@ -516,6 +517,22 @@ def run(prog, rep):
             params = set(f.param_names())
             dep = [x for x in walk(n["r"]) if x["k"] == "ref" and x.get("decl") == "param" and x["name"] in params]
             k += 1
+            if dep:
+                # whatever else it does, the overwritten value must never exceed the size the open established: the store has to sit
+                # behind the true edge of `field > argument` (or `argument < field`)
+                pname = dep[0]["name"]
+
+                def smaller_than_field(c_, pname=pname):
+                    if c_["k"] != "bin" or c_["op"] not in (">", ">=", "<", "<="):
+                        return False
+                    big, small = (c_["l"], c_["r"]) if c_["op"] in (">", ">=") else (c_["r"], c_["l"])
+                    bl, sm = strip_casts(big), strip_casts(small)
+                    return bl is not None and bl["k"] == "member" and bl["field"] == "size" and sm is not None and sm["k"] == "ref" and sm["name"] == pname
+                bounded = bool(true_edge_guards(f, b.id, smaller_than_field))
+                rep.ob("C08.4", f, "reported-size:bounded#%d" % k, bounded,
+                       "the argument replaces the reported size only when it is smaller than the size the open established" if bounded else
+                       "line %d: the size reported for an existing segment is overwritten from the opener's argument without testing that the argument is smaller: "
+                       "a handle opened with a larger size reports more bytes than the segment has, the ring modulus exceeds the mapping and reads/writes run past its end" % line(n), n)
             rep.ob("C08.4", f, "reported-size:store#%d" % k, not dep,
                    "the size reported for an existing segment does not depend on the opener's argument" if not dep else
                    "after opening an existing segment its reported size is overwritten from the opener's argument (%s): p_shm_buffer_new on an existing "
@@ -699,6 +716,10 @@ def is_min(t, a, b):
 RENAME_LOCALS = ['src/pshmbuffer.c']
 
 SELFTEST = [
+    dict(id="shm-reported-size-grows", file="src/pshm-posix.c", expect="C08.4", site="bounded",
+         old="\tif (P_LIKELY (ret->size > size && size != 0))\n\t\tret->size = size;", new="\tif (P_LIKELY (size != 0))\n\t\tret->size = size;"),
+    dict(id="shm-reported-size-guard-flipped-neutral", file="src/pshm-posix.c", expect=None,
+         old="\tif (P_LIKELY (ret->size > size && size != 0))\n\t\tret->size = size;", new="\tif (P_LIKELY (size != 0 && size < ret->size))\n\t\tret->size = size;"),
     dict(id="positions-before-lock", file="src/pshmbuffer.c", expect="C08.1", count=2,
          old="\tif (P_UNLIKELY (p_shm_lock (buf->shm, error) == FALSE))\n\t\treturn -1;\n\n\tmemcpy (&read_pos, (pchar *) addr + P_SHM_BUFFER_READ_OFFSET, sizeof (read_pos));\n\tmemcpy (&write_pos, (pchar *) addr + P_SHM_BUFFER_WRITE_OFFSET, sizeof (write_pos));\n",
          new="\tmemcpy (&read_pos, (pchar *) addr + P_SHM_BUFFER_READ_OFFSET, sizeof (read_pos));\n\tmemcpy (&write_pos, (pchar *) addr + P_SHM_BUFFER_WRITE_OFFSET, sizeof (write_pos));\n\n\tif (P_UNLIKELY (p_shm_lock (buf->shm, error) == FALSE))\n\t\treturn -1;\n"),
